@@ -225,6 +225,30 @@ def handle (w cap : Nat) (op : String) (args : List String) (got : String) : Opt
              tags := ["fp_rand", if fpBits % w == 0 then "fp_rand.nomask" else "fp_rand.mask",
                       "fp_rand.sub" ++ toString (min (masked / p) 3)] }
     | _ => none
+  | "fb_rand" =>
+    match args with
+    | [seed, bitss, digss] => do
+      let seed ← parseBytes seed
+      let fbBits ← bitss.toNat?
+      let fbDigs ← digss.toNat?
+      let x ← Drbg.randSeed mcfg Drbg.init seed
+      let ctxs := "bits=" ++ bitss ++ " digs=" ++ digss
+      let m := match Relic.Model.RandInt.fbRand drawBytes w fbDigs fbBits x with
+        | some (dp, x') =>
+          let nxt := match Drbg.randBytes mcfg x' 16 with
+            | some (b, _) => fmtBytes b
+            | none => "err"
+          ctxs ++ " a=" ++ fmtRaw w dp ++ " n:" ++ nxt
+        | none => "err"
+      -- spec: degree below RLC_FB_BITS (Props/C15.fb_rand_degree), the generator advanced by one generate of RLC_FB_DIGS·(w/8) bytes
+      let specNext := (runToks specTok none ["s:" ++ fmtBytes seed, "g:" ++ toString (fbDigs * (w / 8)), "g:16"]).getLastD "?"
+      let ga := ((got.splitOn " a=").getD 1 "").splitOn " n:"
+      let okSpec : Bool := match parseHexNat (ga.headD "") with
+        | some a => decide (a < 2 ^ fbBits) && (ga.headD "").length == fbDigs * (w / 4) && fbDigs == Relic.Model.RandInt.digitsFor w fbBits
+        | none => false
+      some { model := m, spec := if okSpec then [ctxs ++ " a=" ++ ga.headD "" ++ " n:" ++ specNext] else [ctxs ++ " a=<degree below m> n:" ++ specNext],
+             tags := ["fb_rand", if fbBits % w == 0 then "fb_rand.nomask" else "fb_rand.mask"] }
+    | _ => none
   | _ => none
 
 end Driver.C15
